@@ -11,7 +11,8 @@ probability ~ 1 / (map size)^2, so this family ENUMERATES them:
   pair (t1, t2) of distinct targets of T's pool on that node:          segment  [prepare]  T(t1)  T(t2)
   (same-type pairs: all of them); for every two types T1 != T2 of one target family where T1 or T2 changes the inventory
   (remove / delete / install / create / disable / add ...):            segment  [prepare]  T1(t1)  T2(t2)   (t1 = t2 allowed)
-  (cross-type pairs: a seeded sample in the quick tier, all in thorough); thorough adds same-type TRIPLES.
+  (cross-type pairs: those where BOTH types change the inventory and t1 = t2 - remove-then-install, create-then-delete ... - always;
+  of the rest a seeded sample in the quick tier and a larger one in thorough); thorough adds same-type TRIPLES.
 
 Pools are read from the LIVE game built from the scenario (software_manager.software, file system, NICs, users) plus what can be
 installed / created at run time: every application of Application._registry that is not installed is a target too and is installed
@@ -205,9 +206,13 @@ class Plan:
                         if not any(w in ident or w in i2 for w in CHANGES_INVENTORY):
                             continue
                         p2 = dict(pools(i2, self.types[i2][1], self.vocab["nodes"][node])).get(scope, [])
+                        both = any(w in ident for w in CHANGES_INVENTORY) and any(w in i2 for w in CHANGES_INVENTORY)
                         for t1 in pool:
                             for t2 in p2:
-                                cross.append((node, scope, [(ident, t1), (i2, t2)]))
+                                if t1 == t2 and both:      # remove-then-install, create-then-delete, ... of ONE target: always run
+                                    self._add("cross-type-same-target", node, group, scope, [(ident, t1), (i2, t2)], seen)
+                                else:
+                                    cross.append((node, scope, [(ident, t1), (i2, t2)]))
                     if len(pool) >= 3:
                         for t1 in pool:
                             for t2 in pool:
